@@ -149,6 +149,10 @@ func c01Rings(g geom.Polygonal) [][]geom.Path {
 		return out
 	}
 	for _, p := range g.Polygons() {
+		if len(p) == 0 { // a nil ring list and an empty one are the same (no rings)
+			out = append(out, []geom.Path{})
+			continue
+		}
 		out = append(out, []geom.Path(p))
 	}
 	return out
